@@ -22,8 +22,10 @@ import zlib
 
 VERIF = os.path.dirname(os.path.dirname(os.path.abspath(__file__)))
 CHECK = os.path.join(VERIF, 'check')
-EVIDENCE_DIR = os.path.join(VERIF, 'evidence')
-REPLAY_DIR = os.path.join(VERIF, 'replays')
+# both can be redirected so that runs against mutated copies of the repository
+# (VERIF_REPO=...) never overwrite the evidence of the real tree
+EVIDENCE_DIR = os.environ.get('VERIF_EVIDENCE_DIR') or os.path.join(VERIF, 'evidence')
+REPLAY_DIR = os.environ.get('VERIF_REPLAY_DIR') or os.path.join(VERIF, 'replays')
 KNOWN_FILE = os.path.join(VERIF, 'known_findings.json')
 
 REAL_COMPONENTS = [
